@@ -116,6 +116,24 @@ pub struct C20Sc {
     /// while the watcher is still busy with the previous ones (re-listing, backing off, reconnecting)
     #[serde(default)]
     pub gaps_ms: Vec<u64>,
+    /// build the adapter the way the application does (`DynDiscoveryAdapter::from_config`, page size 500)
+    /// and ask through that wrapper
+    #[serde(default)]
+    pub via_config: bool,
+}
+
+enum Ad {
+    Direct(AgonesDiscoveryAdapter),
+    App(passage::adapter::discovery::DynDiscoveryAdapter),
+}
+
+impl Ad {
+    async fn discover(&self) -> passage_adapters::Result<Vec<passage_adapters::Target>> {
+        match self {
+            Ad::Direct(a) => a.discover().await,
+            Ad::App(a) => a.discover().await,
+        }
+    }
 }
 
 const STATES: &[&str] = &["PortAllocation", "Creating", "Starting", "Scheduled", "RequestReady", "Ready", "Ready", "Ready", "Allocated", "Allocated", "Reserved", "Shutdown", "Error", "Unhealthy"];
@@ -161,6 +179,12 @@ fn gen_gs(rng: &mut Rng, name: &str) -> Gs {
 }
 
 fn generate(rng: &mut Rng) -> C20Sc {
+    let mut sc = generate0(rng);
+    sc.via_config = sc.page_size == 500 && rng.chance(1, 2);
+    sc
+}
+
+fn generate0(rng: &mut Rng) -> C20Sc {
     let nnames = rng.range(1, 12) as usize;
     let names: Vec<String> = (0..nnames).map(|i| format!("gs-{i}")).collect();
     let mut initial: Vec<Gs> = vec![];
@@ -226,6 +250,7 @@ fn generate(rng: &mut Rng) -> C20Sc {
         early_steps: if rng.chance(1, 4) { rng.range(0, 3) as usize } else { 0 },
         steps,
         gaps_ms,
+        via_config: false,
     }
 }
 
@@ -311,10 +336,16 @@ pub fn run(sc: &C20Sc) -> RunReport {
         let client = kube::Client::new(service, "default");
         passage_adapters_agones::verif::set_client(Some(client));
         let cfg = watcher_config::Config { page_size: Some(sc.page_size), bookmarks: true, ..Default::default() };
-        let adapter = match AgonesDiscoveryAdapter::new(Some("default".to_string()), cfg).await {
+        let built = if sc.via_config {
+            let c = passage::config::DiscoveryAdapter::Agones(passage::config::AgonesDiscovery { namespace: Some("default".to_string()), ..Default::default() });
+            passage::adapter::discovery::DynDiscoveryAdapter::from_config(c).await.map(Ad::App).map_err(|e| e.to_string())
+        } else {
+            AgonesDiscoveryAdapter::new(Some("default".to_string()), cfg).await.map(Ad::Direct).map_err(|e| e.to_string())
+        };
+        let adapter = match built {
             Ok(a) => a,
             Err(e) => {
-                rep.violate("adapter_starts", format!("AgonesDiscoveryAdapter::new failed: {e}"));
+                rep.violate("adapter_starts", format!("building the Agones discovery adapter failed: {e}"));
                 return now_ns();
             }
         };
@@ -571,7 +602,7 @@ impl Check for C20 {
         generate(rng)
     }
     fn execute(&self, sc: &C20Sc) -> RunReport {
-        if sc.page_size == 0 || sc.steps.len() > 200 || sc.gaps_ms.iter().any(|g| *g > 10_000 && *g != FUSED) || sc.initial.iter().chain(sc.steps.iter().filter_map(|s| if let Step::Apply(g) = s { Some(g) } else { None })).any(|g| g.name.is_empty()) {
+        if sc.page_size == 0 || (sc.via_config && sc.page_size != 500) || sc.steps.len() > 200 || sc.gaps_ms.iter().any(|g| *g > 10_000 && *g != FUSED) || sc.initial.iter().chain(sc.steps.iter().filter_map(|s| if let Step::Apply(g) = s { Some(g) } else { None })).any(|g| g.name.is_empty()) {
             return RunReport::default();
         }
         run(sc)
